@@ -1,0 +1,36 @@
+//go:build verif
+
+package timex
+
+import (
+	"sync/atomic"
+	"time"
+)
+
+// Virtual clock for verification drivers (build tag verif).
+// While enabled, Now/Since read verifClock instead of the wall clock.
+var (
+	verifEnabled int32
+	verifClock   int64
+)
+
+func verifNow() (time.Duration, bool) {
+	if atomic.LoadInt32(&verifEnabled) == 0 {
+		return 0, false
+	}
+	return time.Duration(atomic.LoadInt64(&verifClock)), true
+}
+
+// VerifSetNow switches the virtual clock on and sets it to d.
+func VerifSetNow(d time.Duration) {
+	atomic.StoreInt64(&verifClock, int64(d))
+	atomic.StoreInt32(&verifEnabled, 1)
+}
+
+// VerifAdvance moves the virtual clock forward by d and returns the new reading.
+func VerifAdvance(d time.Duration) time.Duration {
+	return time.Duration(atomic.AddInt64(&verifClock, int64(d)))
+}
+
+// VerifClockOff returns Now/Since to the wall clock.
+func VerifClockOff() { atomic.StoreInt32(&verifEnabled, 0) }
